@@ -3309,7 +3309,18 @@ XPath::stepPattern(
 
                 for(;;)
                 {
-                    score = theTester(*context, nodeType);
+                    // A step on the child axis never selects a root node (node() would
+                    // accept it); the pseudo-step for a leading "//" must accept it.
+                    if (stepType == XPathExpression::eMATCH_ANY_ANCESTOR &&
+                        (nodeType == XalanNode::DOCUMENT_NODE ||
+                         nodeType == XalanNode::DOCUMENT_FRAGMENT_NODE))
+                    {
+                        score = eMatchScoreNone;
+                    }
+                    else
+                    {
+                        score = theTester(*context, nodeType);
+                    }
 
                     if (eMatchScoreNone != score)
                     {
@@ -3343,7 +3354,11 @@ XPath::stepPattern(
 
             const XalanNode::NodeType   nodeType = context->getNodeType();
 
-            if(nodeType != XalanNode::ATTRIBUTE_NODE)
+            // A step on the child axis selects neither an attribute nor a root node
+            // (node() would accept the latter).
+            if(nodeType != XalanNode::ATTRIBUTE_NODE &&
+               nodeType != XalanNode::DOCUMENT_NODE &&
+               nodeType != XalanNode::DOCUMENT_FRAGMENT_NODE)
             {
                 opPos += 3;
 
